@@ -55,6 +55,8 @@ def run_property(prop, tier, replay=None):
         for m in P.get("models", []):
             if replay:
                 break
+            if tier not in m.get("tiers", ("quick", "thorough")):
+                continue
             consts = dict(m["constants"])
             consts.update(m.get(tier, {}))
             cfg = os.path.join(wd, "%s-%s.cfg" % (m["module"], m.get("name", "mc")))
